@@ -36,22 +36,24 @@ Proof. reflexivity. Qed.
 Lemma lock_after_error_false : lock_after_error = false.
 Proof. reflexivity. Qed.
 
-(* ---------- nested operations while the lock is held *)
-Lemma nested_step_locked : forall n, nested_step true n = (false, true).
+(* ---------- nested operations: refused while the lock is held, accepted while it is free; the flag is
+   the same afterwards in both cases *)
+Lemma nested_step_spec : forall held n, nested_step held n = (negb held, held).
 Proof.
-  intros [k c]; unfold nested_step; simpl; destruct k;
-    rewrite ?rdd_init_refused_spec, ?job_refused_spec; reflexivity.
+  intros held [k c]; unfold nested_step; simpl; destruct k;
+    rewrite ?rdd_init_refused_spec, ?job_refused_spec, ?lock_after_ok_false; destruct held; reflexivity.
 Qed.
 
-
-Lemma run_nested_locked : forall ns, run_nested true ns = (refusals ns, uncaught ns, true).
+Lemma run_nested_spec : forall held ns,
+  run_nested held ns = (nest_outcomes held ns, held && uncaught ns, held).
 Proof.
-  induction ns as [|n rest IH]; [reflexivity|].
-  cbn [run_nested]. rewrite nested_step_locked. cbn iota beta.
-  unfold uncaught; cbn [existsb refusals].
-  destruct (n_caught n); cbn [negb orb].
-  - rewrite IH. reflexivity.
-  - reflexivity.
+  intros held. induction ns as [|n rest IH].
+  - cbn. destruct held; reflexivity.
+  - cbn [run_nested]. rewrite nested_step_spec. destruct held; cbn [negb andb nest_outcomes] in *.
+    + unfold uncaught; cbn [existsb refusals]. destruct (n_caught n); cbn [negb orb].
+      * rewrite IH. reflexivity.
+      * reflexivity.
+    + rewrite IH. reflexivity.
 Qed.
 
 Lemma refusals_all_zero : forall ns, Forall (fun o => o = 0) (refusals ns).
@@ -68,29 +70,29 @@ Proof.
   destruct (n_caught n); [|discriminate]. f_equal. apply IH. exact H2.
 Qed.
 
-(* ---------- one attempt while the lock is held *)
-Lemma attempt_locked : forall ns xs f a,
-  attempt true ns xs f a =
-    (mkRec a (refusals ns)
-           (if uncaught ns then [] else match f with None => xs | Some ft => seen_of (f_pos ft) xs end)
-           (if uncaught ns then Some E_LOCKED else option_map f_exc f), true).
+(* ---------- one attempt *)
+Lemma attempt_spec : forall held ns xs f a,
+  attempt held ns xs f a =
+    (mkRec a (nest_outcomes held ns)
+           (if held && uncaught ns then [] else match f with None => xs | Some ft => seen_of (f_pos ft) xs end)
+           (if held && uncaught ns then Some E_LOCKED else option_map f_exc f), held).
 Proof.
-  intros. unfold attempt. rewrite run_nested_locked.
-  destruct (uncaught ns); [reflexivity|]. destruct f; reflexivity.
+  intros. unfold attempt. rewrite run_nested_spec.
+  destruct (held && uncaught ns); [reflexivity|]. destruct f; reflexivity.
 Qed.
 
-Lemma rec_of_spec : forall ns xs pl i,
-  rec_of ns xs pl i =
-    mkRec (Z.of_nat i + 1) (refusals ns)
-          (if uncaught ns then [] else match nth i pl None with None => xs | Some ft => seen_of (f_pos ft) xs end)
-          (att_exc ns pl i).
-Proof. intros. unfold rec_of, att_exc. rewrite attempt_locked. reflexivity. Qed.
+Lemma rec_of_spec : forall held ns xs pl i,
+  rec_of held ns xs pl i =
+    mkRec (Z.of_nat i + 1) (nest_outcomes held ns)
+          (if held && uncaught ns then [] else match nth i pl None with None => xs | Some ft => seen_of (f_pos ft) xs end)
+          (att_exc held ns pl i).
+Proof. intros. unfold rec_of, att_exc. rewrite attempt_spec. reflexivity. Qed.
 
-Lemma rec_of_no : forall ns xs pl i, a_no (rec_of ns xs pl i) = Z.of_nat i + 1.
+Lemma rec_of_no : forall held ns xs pl i, a_no (rec_of held ns xs pl i) = Z.of_nat i + 1.
 Proof. intros; rewrite rec_of_spec; reflexivity. Qed.
-Lemma rec_of_out : forall ns xs pl i, a_out (rec_of ns xs pl i) = att_exc ns pl i.
+Lemma rec_of_out : forall held ns xs pl i, a_out (rec_of held ns xs pl i) = att_exc held ns pl i.
 Proof. intros; rewrite rec_of_spec; reflexivity. Qed.
-Lemma rec_of_nest : forall ns xs pl i, Forall (fun o => o = 0) (a_nest (rec_of ns xs pl i)).
+Lemma rec_of_nest : forall ns xs pl i, Forall (fun o => o = 0) (a_nest (rec_of true ns xs pl i)).
 Proof. intros; rewrite rec_of_spec; apply refusals_all_zero. Qed.
 
 Lemma seen_of_prefix : forall pos xs, exists n, seen_of pos xs = firstn n xs.
@@ -100,115 +102,154 @@ Proof.
 Qed.
 
 (* every attempt starts from the first element of the partition *)
-Lemma rec_of_from_scratch : forall ns xs pl i, exists n, a_seen (rec_of ns xs pl i) = firstn n xs.
+Lemma rec_of_from_scratch : forall held ns xs pl i, exists n, a_seen (rec_of held ns xs pl i) = firstn n xs.
 Proof.
-  intros. rewrite rec_of_spec. cbn [a_seen]. destruct (uncaught ns); [exists 0%nat; reflexivity|].
+  intros. rewrite rec_of_spec. cbn [a_seen]. destruct (held && uncaught ns); [exists 0%nat; reflexivity|].
   destruct (nth i pl None); [apply seen_of_prefix|]. exists (length xs). symmetry; apply firstn_all.
 Qed.
 
-Lemma rec_of_success_all : forall ns xs pl i, att_exc ns pl i = None -> a_seen (rec_of ns xs pl i) = xs.
+Lemma rec_of_success_all : forall held ns xs pl i,
+  att_exc held ns pl i = None -> a_seen (rec_of held ns xs pl i) = xs.
 Proof.
-  intros ns xs pl i H. rewrite rec_of_spec. cbn [a_seen]. unfold att_exc in H.
-  destruct (uncaught ns); [discriminate|]. destruct (nth i pl None); [discriminate|reflexivity].
+  intros held ns xs pl i H. rewrite rec_of_spec. cbn [a_seen]. unfold att_exc in H.
+  destruct (held && uncaught ns); [discriminate|]. destruct (nth i pl None); [discriminate|reflexivity].
 Qed.
 
-(* ---------- _run_task under the lock *)
-Definition rec_at (ns : list nop) (xs : list Z) (pl : plan) (a0 : Z) (i : nat) : arec :=
-  fst (attempt true ns xs (nth i pl None) (a0 + Z.of_nat i + 1)).
+(* ---------- _run_task *)
+Definition rec_at (held : bool) (ns : list nop) (xs : list Z) (pl : plan) (a0 : Z) (i : nat) : arec :=
+  fst (attempt held ns xs (nth i pl None) (a0 + Z.of_nat i + 1)).
 
-Lemma rec_at_shift : forall ns xs pl a0 i, rec_at ns xs (tl pl) (a0 + 1) i = rec_at ns xs pl a0 (S i).
+Lemma rec_at_shift : forall held ns xs pl a0 i,
+  rec_at held ns xs (tl pl) (a0 + 1) i = rec_at held ns xs pl a0 (S i).
 Proof.
   intros. unfold rec_at. f_equal. f_equal.
   - destruct pl; [destruct i; reflexivity|reflexivity].
   - lia.
 Qed.
 
-Lemma att_exc_tl : forall ns pl i, att_exc ns (tl pl) i = att_exc ns pl (S i).
-Proof. intros. unfold att_exc. destruct (uncaught ns); [reflexivity|]. destruct pl; [destruct i|]; reflexivity. Qed.
+Lemma att_exc_tl : forall held ns pl i, att_exc held ns (tl pl) i = att_exc held ns pl (S i).
+Proof.
+  intros. unfold att_exc. destruct (held && uncaught ns); [reflexivity|].
+  destruct pl; [destruct i|]; reflexivity.
+Qed.
 
-Lemma rec_at_out : forall ns xs pl a0 i, a_out (rec_at ns xs pl a0 i) = att_exc ns pl i.
-Proof. intros. unfold rec_at, att_exc. rewrite attempt_locked. reflexivity. Qed.
+Lemma rec_at_out : forall held ns xs pl a0 i, a_out (rec_at held ns xs pl a0 i) = att_exc held ns pl i.
+Proof. intros. unfold rec_at, att_exc. rewrite attempt_spec. reflexivity. Qed.
 
 Lemma map_seq_S : forall {A} (f : nat -> A) n, map f (seq 0 (S n)) = f 0%nat :: map (fun i => f (S i)) (seq 0 n).
 Proof. intros. cbn [seq map]. f_equal. rewrite <- seq_shift, map_map. reflexivity. Qed.
 
-Lemma run_task_success_gen : forall k fuel maxr ns xs pl a0,
-  0 <= a0 -> a0 + Z.of_nat k < maxr -> (k < fuel)%nat ->
-  (forall i, (i < k)%nat -> att_exc ns pl i <> None) -> att_exc ns pl k = None ->
-  run_task fuel maxr true ns xs pl a0 = (TOk xs, map (rec_at ns xs pl a0) (seq 0 (S k)), true).
+Lemma attempt_hd : forall held ns xs pl a0,
+  attempt held ns xs (hd None pl) (a0 + 1) = (rec_at held ns xs pl a0 0, held).
 Proof.
-  induction k as [|k IH]; intros fuel maxr ns xs pl a0 Ha Hm Hf Hfail Hok.
+  intros. unfold rec_at. rewrite !attempt_spec. cbn [fst]. replace (a0 + Z.of_nat 0 + 1) with (a0 + 1) by lia.
+  destruct pl; reflexivity.
+Qed.
+
+Lemma run_task_success_gen : forall k fuel maxr held ns xs pl a0,
+  0 <= a0 -> a0 + Z.of_nat k < maxr -> (k < fuel)%nat ->
+  (forall i, (i < k)%nat -> att_exc held ns pl i <> None) -> att_exc held ns pl k = None ->
+  run_task fuel maxr held ns xs pl a0 = (TOk xs, map (rec_at held ns xs pl a0) (seq 0 (S k)), held).
+Proof.
+  induction k as [|k IH]; intros fuel maxr held ns xs pl a0 Ha Hm Hf Hfail Hok.
   - destruct fuel as [|fuel]; [lia|]. cbn [run_task].
-    rewrite attempt_next_spec.
-    assert (E : attempt true ns xs (hd None pl) (a0 + 1) = (rec_at ns xs pl a0 0, true)).
-    { unfold rec_at. rewrite !attempt_locked. cbn [fst]. replace (a0 + Z.of_nat 0 + 1) with (a0 + 1) by lia.
-      destruct pl; reflexivity. }
-    rewrite E. pose proof (rec_at_out ns xs pl a0 0) as Ho. rewrite Hok in Ho. rewrite Ho.
+    rewrite attempt_next_spec, attempt_hd.
+    pose proof (rec_at_out held ns xs pl a0 0) as Ho. rewrite Hok in Ho. rewrite Ho.
     cbn [seq map]. f_equal. f_equal. f_equal.
-    unfold rec_at. rewrite attempt_locked. cbn [fst a_seen]. unfold att_exc in Hok.
-    destruct (uncaught ns); [discriminate|]. destruct (nth 0 pl None); [discriminate|reflexivity].
+    unfold rec_at. rewrite attempt_spec. cbn [fst a_seen]. unfold att_exc in Hok.
+    destruct (held && uncaught ns); [discriminate|]. destruct (nth 0 pl None); [discriminate|reflexivity].
   - destruct fuel as [|fuel]; [lia|]. cbn [run_task].
-    rewrite attempt_next_spec.
-    assert (E : attempt true ns xs (hd None pl) (a0 + 1) = (rec_at ns xs pl a0 0, true)).
-    { unfold rec_at. rewrite !attempt_locked. cbn [fst]. replace (a0 + Z.of_nat 0 + 1) with (a0 + 1) by lia.
-      destruct pl; reflexivity. }
-    rewrite E. pose proof (rec_at_out ns xs pl a0 0) as Ho.
-    destruct (att_exc ns pl 0) as [e|] eqn:He; [|exfalso; apply (Hfail 0%nat); [lia|exact He]].
+    rewrite attempt_next_spec, attempt_hd.
+    pose proof (rec_at_out held ns xs pl a0 0) as Ho.
+    destruct (att_exc held ns pl 0) as [e|] eqn:He; [|exfalso; apply (Hfail 0%nat); [lia|exact He]].
     rewrite Ho. rewrite retry_stop_spec by lia. rewrite retry_reraise_false.
     replace (a0 + 1 =? maxr) with false by (symmetry; apply Z.eqb_neq; lia). cbn [andb].
-    rewrite (IH fuel maxr ns xs (tl pl) (a0 + 1)); try lia.
-    + rewrite (map_seq_S (rec_at ns xs pl a0) (S k)). f_equal. f_equal. f_equal.
+    rewrite (IH fuel maxr held ns xs (tl pl) (a0 + 1)); try lia.
+    + rewrite (map_seq_S (rec_at held ns xs pl a0) (S k)). f_equal. f_equal. f_equal.
       apply map_ext. intros i. apply rec_at_shift.
     + intros i Hi. rewrite att_exc_tl. apply Hfail. lia.
     + rewrite att_exc_tl. exact Hok.
 Qed.
 
-Lemma run_task_exhausted_gen : forall n fuel maxr ns xs pl a0 e,
+Lemma run_task_exhausted_gen : forall n fuel maxr held ns xs pl a0 e,
   0 <= a0 -> a0 + Z.of_nat n = maxr -> (1 <= n)%nat -> (n <= fuel)%nat ->
-  (forall i, (i < n)%nat -> att_exc ns pl i <> None) -> att_exc ns pl (n - 1) = Some e ->
-  run_task fuel maxr true ns xs pl a0 = (TErr e maxr, map (rec_at ns xs pl a0) (seq 0 n), true).
+  (forall i, (i < n)%nat -> att_exc held ns pl i <> None) -> att_exc held ns pl (n - 1) = Some e ->
+  run_task fuel maxr held ns xs pl a0 = (TErr e maxr, map (rec_at held ns xs pl a0) (seq 0 n), held).
 Proof.
-  induction n as [|n IH]; intros fuel maxr ns xs pl a0 e Ha Hm Hn Hf Hfail Hlast; [lia|].
-  destruct fuel as [|fuel]; [lia|]. cbn [run_task]. rewrite attempt_next_spec.
-  assert (E : attempt true ns xs (hd None pl) (a0 + 1) = (rec_at ns xs pl a0 0, true)).
-  { unfold rec_at. rewrite !attempt_locked. cbn [fst]. replace (a0 + Z.of_nat 0 + 1) with (a0 + 1) by lia.
-    destruct pl; reflexivity. }
-  rewrite E. pose proof (rec_at_out ns xs pl a0 0) as Ho.
-  destruct (att_exc ns pl 0) as [e0|] eqn:He; [|exfalso; apply (Hfail 0%nat); [lia|exact He]].
+  induction n as [|n IH]; intros fuel maxr held ns xs pl a0 e Ha Hm Hn Hf Hfail Hlast; [lia|].
+  destruct fuel as [|fuel]; [lia|]. cbn [run_task]. rewrite attempt_next_spec, attempt_hd.
+  pose proof (rec_at_out held ns xs pl a0 0) as Ho.
+  destruct (att_exc held ns pl 0) as [e0|] eqn:He; [|exfalso; apply (Hfail 0%nat); [lia|exact He]].
   rewrite Ho. rewrite retry_stop_spec by lia. rewrite retry_reraise_false.
   destruct n as [|n].
   - replace (a0 + 1 =? maxr) with true by (symmetry; apply Z.eqb_eq; lia). cbn [andb].
     cbn [Nat.sub] in Hlast. rewrite He in Hlast. inversion Hlast; subst e0.
     replace (a0 + 1) with maxr by lia. reflexivity.
   - replace (a0 + 1 =? maxr) with false by (symmetry; apply Z.eqb_neq; lia). cbn [andb].
-    rewrite (IH fuel maxr ns xs (tl pl) (a0 + 1) e); try lia.
-    + rewrite (map_seq_S (rec_at ns xs pl a0) (S n)). f_equal. f_equal. f_equal.
+    rewrite (IH fuel maxr held ns xs (tl pl) (a0 + 1) e); try lia.
+    + rewrite (map_seq_S (rec_at held ns xs pl a0) (S n)). f_equal. f_equal. f_equal.
       apply map_ext. intros i. apply rec_at_shift.
     + intros i Hi. rewrite att_exc_tl. apply Hfail. lia.
     + rewrite att_exc_tl. replace (S (S n - 1)) with (S (S n) - 1)%nat by lia. exact Hlast.
 Qed.
 
-Lemma rec_at_0 : forall ns xs pl i, rec_at ns xs pl 0 i = rec_of ns xs pl i.
+Lemma rec_at_0 : forall held ns xs pl i, rec_at held ns xs pl 0 i = rec_of held ns xs pl i.
 Proof. intros. unfold rec_at, rec_of. reflexivity. Qed.
 
-
-Lemma retry_success : forall maxr fuel ns xs pl k,
+Lemma retry_success : forall maxr fuel held ns xs pl k,
   Z.of_nat k < maxr -> (k < fuel)%nat ->
-  (forall i, (i < k)%nat -> att_exc ns pl i <> None) -> att_exc ns pl k = None ->
-  run_task fuel maxr true ns xs pl 0 = (TOk xs, task_log ns xs pl (S k), true).
+  (forall i, (i < k)%nat -> att_exc held ns pl i <> None) -> att_exc held ns pl k = None ->
+  run_task fuel maxr held ns xs pl 0 = (TOk xs, task_log held ns xs pl (S k), held).
 Proof.
   intros. rewrite (run_task_success_gen k) by (assumption || lia).
-  unfold task_log. rewrite (map_ext _ _ (rec_at_0 ns xs pl)). reflexivity.
+  unfold task_log. rewrite (map_ext _ _ (rec_at_0 held ns xs pl)). reflexivity.
 Qed.
 
-Lemma retry_exhausted : forall maxr fuel ns xs pl e,
+Lemma retry_exhausted : forall maxr fuel held ns xs pl e,
   1 <= maxr -> (Z.to_nat maxr <= fuel)%nat ->
-  (forall i, (i < Z.to_nat maxr)%nat -> att_exc ns pl i <> None) ->
-  att_exc ns pl (Z.to_nat maxr - 1) = Some e ->
-  run_task fuel maxr true ns xs pl 0 = (TErr e maxr, task_log ns xs pl (Z.to_nat maxr), true).
+  (forall i, (i < Z.to_nat maxr)%nat -> att_exc held ns pl i <> None) ->
+  att_exc held ns pl (Z.to_nat maxr - 1) = Some e ->
+  run_task fuel maxr held ns xs pl 0 = (TErr e maxr, task_log held ns xs pl (Z.to_nat maxr), held).
 Proof.
-  intros. rewrite (run_task_exhausted_gen (Z.to_nat maxr) fuel maxr ns xs pl 0 e) by (assumption || lia).
-  unfold task_log. rewrite (map_ext _ _ (rec_at_0 ns xs pl)). reflexivity.
+  intros. rewrite (run_task_exhausted_gen (Z.to_nat maxr) fuel maxr held ns xs pl 0 e) by (assumption || lia).
+  unfold task_log. rewrite (map_ext _ _ (rec_at_0 held ns xs pl)). reflexivity.
+Qed.
+
+(* general facts about _run_task, for every fuel and budget *)
+Lemma run_task_general : forall fuel maxr held ns xs pl a0 t log lk,
+  run_task fuel maxr held ns xs pl a0 = (t, log, lk) ->
+  lk = held /\ (forall ys, t = TOk ys -> ys = xs) /\
+  (forall r, In r log -> a_out r = None -> a_seen r = xs) /\
+  (forall r, In r log -> a_nest r = nest_outcomes held ns).
+Proof.
+  induction fuel as [|fuel IH]; intros maxr held ns xs pl a0 t log lk H.
+  - cbn in H. inversion H; subst. repeat split; intros; try discriminate; contradiction.
+  - cbn [run_task] in H. rewrite attempt_spec in H. cbn [a_out a_seen] in H.
+    assert (Hfail : forall e seen,
+      (if retry_stop (attempt_next a0) maxr && retry_reraise false
+       then (TErr e (attempt_next a0), [mkRec (attempt_next a0) (nest_outcomes held ns) seen (Some e)], held)
+       else let '(t0, log0, lk2) := run_task fuel maxr held ns xs (tl pl) (attempt_next a0) in
+            (t0, mkRec (attempt_next a0) (nest_outcomes held ns) seen (Some e) :: log0, lk2)) = (t, log, lk) ->
+      lk = held /\ (forall ys, t = TOk ys -> ys = xs) /\
+      (forall r, In r log -> a_out r = None -> a_seen r = xs) /\
+      (forall r, In r log -> a_nest r = nest_outcomes held ns)).
+    { intros e seen H'. destruct (retry_stop (attempt_next a0) maxr && retry_reraise false).
+      - inversion H'; subst. repeat split; intros; try discriminate.
+        + destruct H0 as [<-|[]]. discriminate.
+        + destruct H0 as [<-|[]]. reflexivity.
+      - destruct (run_task fuel maxr held ns xs (tl pl) (attempt_next a0)) as [[t' l'] lk'] eqn:Er.
+        inversion H'; subst. destruct (IH _ _ _ _ _ _ _ _ _ Er) as [Hl [Ht [Hs Hn]]].
+        repeat split; try assumption.
+        + intros r [<-|Hin] Hout; [discriminate|apply Hs; assumption].
+        + intros r [<-|Hin]; [reflexivity|apply Hn; assumption]. }
+    destruct (held && uncaught ns).
+    + eapply Hfail. exact H.
+    + destruct (hd None pl) as [ft|]; cbn [option_map] in H.
+      * eapply Hfail. exact H.
+      * inversion H; subst. repeat split.
+        { intros ys Hy. inversion Hy. reflexivity. }
+        { intros r [<-|[]] _. reflexivity. }
+        { intros r [<-|[]]. reflexivity. }
 Qed.
 
 (* ---------- deciding which case applies *)
@@ -227,155 +268,240 @@ Qed.
 Lemma is_some_true : forall {A} (o : option A), is_some o = true <-> o <> None.
 Proof. intros A [a|]; cbn; split; intros; try discriminate; try reflexivity; congruence. Qed.
 
-Lemma exhausts_true : forall maxr p,
-  exhausts maxr p = true <-> forall i, (i < Z.to_nat maxr)%nat -> att_exc (p_nest p) (p_plan p) i <> None.
+Definition plan_exhausts (held : bool) (maxr : Z) (p : part) : bool :=
+  forallb (fun i => is_some (att_exc held (p_nest p) (p_plan p) i)) (seq 0 (Z.to_nat maxr)).
+
+Lemma exhausts_uncached : forall held maxr j p, cached j p = None -> exhausts held maxr j p = plan_exhausts held maxr p.
+Proof. intros held maxr j p H. unfold exhausts. rewrite H. reflexivity. Qed.
+
+Lemma exhausts_cached : forall held maxr j p c, cached j p = Some c -> exhausts held maxr j p = false.
+Proof. intros held maxr j p c H. unfold exhausts. rewrite H. reflexivity. Qed.
+
+Lemma plan_exhausts_true : forall held maxr p,
+  plan_exhausts held maxr p = true <-> forall i, (i < Z.to_nat maxr)%nat -> att_exc held (p_nest p) (p_plan p) i <> None.
 Proof.
-  intros. unfold exhausts. rewrite forallb_forall. split.
+  intros. unfold plan_exhausts. rewrite forallb_forall. split.
   - intros H i Hi. apply is_some_true. apply H. apply in_seq. lia.
   - intros H i Hi. apply is_some_true. apply H. apply in_seq in Hi. lia.
 Qed.
 
-Lemma exhausts_false : forall maxr p,
-  exhausts maxr p = false ->
-  exists k, (k < Z.to_nat maxr)%nat /\ (forall i, (i < k)%nat -> att_exc (p_nest p) (p_plan p) i <> None)
-            /\ att_exc (p_nest p) (p_plan p) k = None.
+Lemma plan_exhausts_false : forall held maxr p,
+  plan_exhausts held maxr p = false ->
+  exists k, (k < Z.to_nat maxr)%nat /\ (forall i, (i < k)%nat -> att_exc held (p_nest p) (p_plan p) i <> None)
+            /\ att_exc held (p_nest p) (p_plan p) k = None.
 Proof.
-  intros maxr p H. unfold exhausts in H. apply forallb_seq_false in H.
+  intros held maxr p H. unfold plan_exhausts in H. apply forallb_seq_false in H.
   destruct H as [k [Hk [Hall Hf]]]. exists k. split; [lia|]. split.
   - intros i Hi. apply is_some_true. apply Hall. lia.
-  - destruct (att_exc (p_nest p) (p_plan p) k); [discriminate|reflexivity].
+  - destruct (att_exc held (p_nest p) (p_plan p) k); [discriminate|reflexivity].
 Qed.
 
-Lemma exhausts_last : forall maxr p, 1 <= maxr -> exhausts maxr p = true ->
-  exists e, att_exc (p_nest p) (p_plan p) (Z.to_nat maxr - 1) = Some e.
+Lemma exhausts_true_inv : forall held maxr j p, exhausts held maxr j p = true ->
+  cached j p = None /\ forall i, (i < Z.to_nat maxr)%nat -> att_exc held (p_nest p) (p_plan p) i <> None.
 Proof.
-  intros maxr p Hm H. rewrite exhausts_true in H. specialize (H (Z.to_nat maxr - 1)%nat).
-  destruct (att_exc (p_nest p) (p_plan p) (Z.to_nat maxr - 1)) as [e|]; [exists e; reflexivity|].
-  exfalso. apply H; [lia|reflexivity].
+  intros held maxr j p H. unfold exhausts in H. destruct (cached j p) eqn:Ec; [discriminate|].
+  split; [reflexivity|]. apply plan_exhausts_true. exact H.
 Qed.
 
-
-Lemma task_ok : forall maxr j p, 1 <= maxr -> exhausts maxr p = false ->
-  exists log, run_task (Z.to_nat maxr) maxr true (p_nest p) (stage_in j p) (p_plan p) 0
-              = (TOk (stage_in j p), log, true) /\ task_log_ok maxr j p log.
+Lemma exhausts_last : forall held maxr j p, 1 <= maxr -> exhausts held maxr j p = true ->
+  exists e, att_exc held (p_nest p) (p_plan p) (Z.to_nat maxr - 1) = Some e.
 Proof.
-  intros maxr j p Hm H. destruct (exhausts_false _ _ H) as [k [Hk [Hfail Hok]]].
-  eexists. split.
-  - apply (retry_success maxr (Z.to_nat maxr) _ _ _ k); try assumption; lia.
-  - exists (S k). split; [reflexivity|]. split; [lia|]. split; [lia|]. split.
-    + intros i Hi. apply Hfail. lia.
-    + left. replace (S k - 1)%nat with k by lia. exact Hok.
+  intros held maxr j p Hm H. destruct (exhausts_true_inv _ _ _ _ H) as [_ H'].
+  specialize (H' (Z.to_nat maxr - 1)%nat).
+  destruct (att_exc held (p_nest p) (p_plan p) (Z.to_nat maxr - 1)) as [e|]; [exists e; reflexivity|].
+  exfalso. apply H'; [lia|reflexivity].
 Qed.
 
-Lemma task_err : forall maxr j p e, 1 <= maxr -> exhausts maxr p = true ->
-  att_exc (p_nest p) (p_plan p) (Z.to_nat maxr - 1) = Some e ->
-  run_task (Z.to_nat maxr) maxr true (p_nest p) (stage_in j p) (p_plan p) 0
-    = (TErr e maxr, task_log (p_nest p) (stage_in j p) (p_plan p) (Z.to_nat maxr), true)
-  /\ task_log_ok maxr j p (task_log (p_nest p) (stage_in j p) (p_plan p) (Z.to_nat maxr)).
+(* what the task of a partition hands downstream when it succeeds *)
+Definition task_out (j : job) (p : part) : list Z :=
+  match cached j p with Some c => c | None => stage_in j p end.
+
+Lemma task_ok : forall held maxr j p, 1 <= maxr -> exhausts held maxr j p = false ->
+  exists log, part_task (Z.to_nat maxr) maxr held j p = (TOk (task_out j p), log, held)
+              /\ task_log_ok held maxr j p log.
 Proof.
-  intros maxr j p e Hm H He. rewrite exhausts_true in H. split.
+  intros held maxr j p Hm H. unfold part_task, task_out, task_log_ok. destruct (cached j p) as [c|] eqn:Ec.
+  - exists []. split; reflexivity.
+  - rewrite (exhausts_uncached _ _ _ _ Ec) in H.
+    destruct (plan_exhausts_false _ _ _ H) as [k [Hk [Hfail Hok]]].
+    eexists. split.
+    + apply (retry_success maxr (Z.to_nat maxr) _ _ _ _ k); try assumption; lia.
+    + exists (S k). split; [reflexivity|]. split; [lia|]. split; [lia|]. split.
+      * intros i Hi. apply Hfail. lia.
+      * left. replace (S k - 1)%nat with k by lia. exact Hok.
+Qed.
+
+Lemma task_err : forall held maxr j p e, 1 <= maxr -> exhausts held maxr j p = true ->
+  att_exc held (p_nest p) (p_plan p) (Z.to_nat maxr - 1) = Some e ->
+  part_task (Z.to_nat maxr) maxr held j p
+    = (TErr e maxr, task_log held (p_nest p) (stage_in j p) (p_plan p) (Z.to_nat maxr), held)
+  /\ task_log_ok held maxr j p (task_log held (p_nest p) (stage_in j p) (p_plan p) (Z.to_nat maxr)).
+Proof.
+  intros held maxr j p e Hm H He. destruct (exhausts_true_inv _ _ _ _ H) as [Ec H'].
+  unfold part_task, task_log_ok. rewrite Ec. split.
   - apply retry_exhausted; try assumption; lia.
   - exists (Z.to_nat maxr). split; [reflexivity|]. split; [lia|]. split; [lia|]. split.
-    + intros i Hi. apply H. lia.
+    + intros i Hi. apply H'. lia.
     + right. lia.
 Qed.
 
-(* ---------- the tasks of one job, run while the job lock is held *)
-
-Lemma tasks_local_ok : forall ps maxr j idx, 1 <= maxr -> all_ok maxr ps = true ->
-  exists logs, tasks_local (Z.to_nat maxr) maxr true j idx ps = (KOk (map (stage_in j) ps), logs, true)
-               /\ Forall2 (task_log_ok maxr j) ps logs.
+Lemma part_task_general : forall fuel maxr held j p t log lk,
+  part_task fuel maxr held j p = (t, log, lk) ->
+  lk = held /\
+  (forall r, In r log -> a_out r = None -> a_seen r = stage_in j p) /\
+  (forall r, In r log -> a_nest r = nest_outcomes held (p_nest p)).
 Proof.
-  induction ps as [|p rest IH]; intros maxr j idx Hm Hall.
+  intros fuel maxr held j p t log lk H. unfold part_task in H. destruct (cached j p).
+  - inversion H; subst. repeat split; intros; contradiction.
+  - destruct (run_task_general _ _ _ _ _ _ _ _ _ _ H) as [Hl [_ [Hs Hn]]]. repeat split; assumption.
+Qed.
+
+(* ---------- the tasks of one job *)
+Lemma tasks_local_ok : forall ps held maxr j idx, 1 <= maxr -> all_ok held maxr j ps = true ->
+  exists logs, tasks_local (Z.to_nat maxr) maxr held j idx ps = (KOk (map (task_out j) ps), logs, held)
+               /\ Forall2 (task_log_ok held maxr j) ps logs.
+Proof.
+  induction ps as [|p rest IH]; intros held maxr j idx Hm Hall.
   - exists []. split; [reflexivity|constructor].
   - cbn [all_ok forallb] in Hall. apply andb_prop in Hall. destruct Hall as [Hp Hrest].
-    apply negb_true_iff in Hp. destruct (task_ok maxr j p Hm Hp) as [log [Erun Hlog]].
-    destruct (IH maxr j (idx + 1) Hm Hrest) as [logs [Etasks Hlogs]].
+    apply negb_true_iff in Hp. destruct (task_ok held maxr j p Hm Hp) as [log [Erun Hlog]].
+    destruct (IH held maxr j (idx + 1) Hm Hrest) as [logs [Etasks Hlogs]].
     exists (log :: logs). split; [|constructor; assumption].
     cbn [tasks_local]. rewrite Erun, Etasks. reflexivity.
 Qed.
 
-Lemma tasks_local_err : forall pre maxr j idx p post e, 1 <= maxr ->
-  all_ok maxr pre = true -> exhausts maxr p = true ->
-  att_exc (p_nest p) (p_plan p) (Z.to_nat maxr - 1) = Some e ->
-  exists logs, tasks_local (Z.to_nat maxr) maxr true j idx (pre ++ p :: post)
+Lemma tasks_local_err : forall pre held maxr j idx p post e, 1 <= maxr ->
+  all_ok held maxr j pre = true -> exhausts held maxr j p = true ->
+  att_exc held (p_nest p) (p_plan p) (Z.to_nat maxr - 1) = Some e ->
+  exists logs, tasks_local (Z.to_nat maxr) maxr held j idx (pre ++ p :: post)
                = (KErr e (idx + Z.of_nat (length pre)) maxr,
-                  logs ++ task_log (p_nest p) (stage_in j p) (p_plan p) (Z.to_nat maxr) :: no_logs post, true)
-               /\ Forall2 (task_log_ok maxr j) pre logs.
+                  logs ++ task_log held (p_nest p) (stage_in j p) (p_plan p) (Z.to_nat maxr) :: no_logs post, held)
+               /\ Forall2 (task_log_ok held maxr j) pre logs.
 Proof.
-  induction pre as [|q pre IH]; intros maxr j idx p post e Hm Hall Hp He.
+  induction pre as [|q pre IH]; intros held maxr j idx p post e Hm Hall Hp He.
   - exists []. split; [|constructor].
-    cbn [app tasks_local]. destruct (task_err maxr j p e Hm Hp He) as [Erun _]. rewrite Erun.
+    cbn [app tasks_local]. destruct (task_err held maxr j p e Hm Hp He) as [Erun _]. rewrite Erun.
     cbn [length]. replace (idx + Z.of_nat 0) with idx by lia. reflexivity.
   - cbn [all_ok forallb] in Hall. apply andb_prop in Hall. destruct Hall as [Hq Hrest].
-    apply negb_true_iff in Hq. destruct (task_ok maxr j q Hm Hq) as [log [Erun Hlog]].
-    destruct (IH maxr j (idx + 1) p post e Hm Hrest Hp He) as [logs [Etasks Hlogs]].
+    apply negb_true_iff in Hq. destruct (task_ok held maxr j q Hm Hq) as [log [Erun Hlog]].
+    destruct (IH held maxr j (idx + 1) p post e Hm Hrest Hp He) as [logs [Etasks Hlogs]].
     exists (log :: logs). split; [|constructor; assumption].
     cbn [app tasks_local]. rewrite Erun, Etasks. cbn [length app].
     replace (idx + 1 + Z.of_nat (length pre)) with (idx + Z.of_nat (S (length pre))) by lia. reflexivity.
 Qed.
 
-Lemma tasks_pooled_logs : forall ps maxr j idx, 1 <= maxr ->
-  exists r logs, tasks_pooled (Z.to_nat maxr) maxr true j idx ps = (r, logs, true)
-                 /\ Forall2 (task_log_ok maxr j) ps logs.
+Lemma tasks_pooled_logs : forall ps held maxr j idx, 1 <= maxr ->
+  exists r logs, tasks_pooled (Z.to_nat maxr) maxr held j idx ps = (r, logs, held)
+                 /\ Forall2 (task_log_ok held maxr j) ps logs.
 Proof.
-  induction ps as [|p rest IH]; intros maxr j idx Hm.
+  induction ps as [|p rest IH]; intros held maxr j idx Hm.
   - exists (KOk []), []. split; [reflexivity|constructor].
-  - destruct (IH maxr j (idx + 1) Hm) as [r [logs [Etasks Hlogs]]].
-    destruct (exhausts maxr p) eqn:Hp.
-    + destruct (exhausts_last maxr p Hm Hp) as [e He].
-      destruct (task_err maxr j p e Hm Hp He) as [Erun Hlog].
+  - destruct (IH held maxr j (idx + 1) Hm) as [r [logs [Etasks Hlogs]]].
+    destruct (exhausts held maxr j p) eqn:Hp.
+    + destruct (exhausts_last held maxr j p Hm Hp) as [e He].
+      destruct (task_err held maxr j p e Hm Hp He) as [Erun Hlog].
       eexists; eexists. split; [cbn [tasks_pooled]; rewrite Erun, Etasks; reflexivity|].
       constructor; assumption.
-    + destruct (task_ok maxr j p Hm Hp) as [log [Erun Hlog]].
+    + destruct (task_ok held maxr j p Hm Hp) as [log [Erun Hlog]].
       eexists; eexists. split; [cbn [tasks_pooled]; rewrite Erun, Etasks; reflexivity|].
       constructor; assumption.
 Qed.
 
-Lemma tasks_pooled_ok : forall ps maxr j idx, 1 <= maxr -> all_ok maxr ps = true ->
-  exists logs, tasks_pooled (Z.to_nat maxr) maxr true j idx ps = (KOk (map (stage_in j) ps), logs, true)
-               /\ Forall2 (task_log_ok maxr j) ps logs.
+Lemma tasks_pooled_ok : forall ps held maxr j idx, 1 <= maxr -> all_ok held maxr j ps = true ->
+  exists logs, tasks_pooled (Z.to_nat maxr) maxr held j idx ps = (KOk (map (task_out j) ps), logs, held)
+               /\ Forall2 (task_log_ok held maxr j) ps logs.
 Proof.
-  induction ps as [|p rest IH]; intros maxr j idx Hm Hall.
+  induction ps as [|p rest IH]; intros held maxr j idx Hm Hall.
   - exists []. split; [reflexivity|constructor].
   - cbn [all_ok forallb] in Hall. apply andb_prop in Hall. destruct Hall as [Hp Hrest].
-    apply negb_true_iff in Hp. destruct (task_ok maxr j p Hm Hp) as [log [Erun Hlog]].
-    destruct (IH maxr j (idx + 1) Hm Hrest) as [logs [Etasks Hlogs]].
+    apply negb_true_iff in Hp. destruct (task_ok held maxr j p Hm Hp) as [log [Erun Hlog]].
+    destruct (IH held maxr j (idx + 1) Hm Hrest) as [logs [Etasks Hlogs]].
     exists (log :: logs). split; [|constructor; assumption].
     cbn [tasks_pooled]. rewrite Erun, Etasks. reflexivity.
 Qed.
 
-Lemma tasks_pooled_err : forall pre maxr j idx p post e, 1 <= maxr ->
-  all_ok maxr pre = true -> exhausts maxr p = true ->
-  att_exc (p_nest p) (p_plan p) (Z.to_nat maxr - 1) = Some e ->
-  exists logs, tasks_pooled (Z.to_nat maxr) maxr true j idx (pre ++ p :: post)
-               = (KErr e (idx + Z.of_nat (length pre)) maxr, logs, true)
-               /\ Forall2 (task_log_ok maxr j) (pre ++ p :: post) logs.
+Lemma tasks_pooled_err : forall pre held maxr j idx p post e, 1 <= maxr ->
+  all_ok held maxr j pre = true -> exhausts held maxr j p = true ->
+  att_exc held (p_nest p) (p_plan p) (Z.to_nat maxr - 1) = Some e ->
+  exists logs, tasks_pooled (Z.to_nat maxr) maxr held j idx (pre ++ p :: post)
+               = (KErr e (idx + Z.of_nat (length pre)) maxr, logs, held)
+               /\ Forall2 (task_log_ok held maxr j) (pre ++ p :: post) logs.
 Proof.
-  induction pre as [|q pre IH]; intros maxr j idx p post e Hm Hall Hp He.
-  - destruct (task_err maxr j p e Hm Hp He) as [Erun Hlog].
-    destruct (tasks_pooled_logs post maxr j (idx + 1) Hm) as [r [logs [Etasks Hlogs]]].
+  induction pre as [|q pre IH]; intros held maxr j idx p post e Hm Hall Hp He.
+  - destruct (task_err held maxr j p e Hm Hp He) as [Erun Hlog].
+    destruct (tasks_pooled_logs post held maxr j (idx + 1) Hm) as [r [logs [Etasks Hlogs]]].
     eexists. split; [|constructor; eassumption].
     cbn [app tasks_pooled]. rewrite Erun, Etasks.
     cbn [length]. replace (idx + Z.of_nat 0) with idx by lia. reflexivity.
   - cbn [all_ok forallb] in Hall. apply andb_prop in Hall. destruct Hall as [Hq Hrest].
-    apply negb_true_iff in Hq. destruct (task_ok maxr j q Hm Hq) as [log [Erun Hlog]].
-    destruct (IH maxr j (idx + 1) p post e Hm Hrest Hp He) as [logs [Etasks Hlogs]].
+    apply negb_true_iff in Hq. destruct (task_ok held maxr j q Hm Hq) as [log [Erun Hlog]].
+    destruct (IH held maxr j (idx + 1) p post e Hm Hrest Hp He) as [logs [Etasks Hlogs]].
     exists (log :: logs). split; [|constructor; assumption].
     cbn [app tasks_pooled]. rewrite Erun, Etasks. cbn [length].
     replace (idx + 1 + Z.of_nat (length pre)) with (idx + Z.of_nat (S (length pre))) by lia. reflexivity.
 Qed.
 
+(* for every fuel and budget: the lock flag is what it was, successful attempts saw the whole partition,
+   the nested outcomes are those of the flag *)
+Definition log_sound (held : bool) (j : job) (p : part) (log : list arec) : Prop :=
+  (forall r, In r log -> a_out r = None -> a_seen r = stage_in j p) /\
+  (forall r, In r log -> a_nest r = nest_outcomes held (p_nest p)).
+
+Lemma log_sound_nil : forall held j p, log_sound held j p [].
+Proof. intros; split; intros; contradiction. Qed.
+
+Lemma no_logs_sound : forall held j ps, Forall2 (log_sound held j) ps (no_logs ps).
+Proof. induction ps; constructor; [apply log_sound_nil|assumption]. Qed.
+
+Lemma tasks_local_general : forall ps fuel maxr held j idx r logs lk,
+  tasks_local fuel maxr held j idx ps = (r, logs, lk) -> lk = held /\ Forall2 (log_sound held j) ps logs.
+Proof.
+  induction ps as [|p rest IH]; intros fuel maxr held j idx r logs lk H.
+  - cbn in H. inversion H; subst. split; [reflexivity|constructor].
+  - cbn [tasks_local] in H. destruct (part_task fuel maxr held j p) as [[t log] lk1] eqn:Ep.
+    destruct (part_task_general _ _ _ _ _ _ _ _ Ep) as [-> [Hs Hn]].
+    destruct t.
+    + destruct (tasks_local fuel maxr held j (idx + 1) rest) as [[r' logs'] lk2] eqn:Er.
+      destruct (IH _ _ _ _ _ _ _ _ Er) as [-> Hl]. inversion H; subst.
+      split; [reflexivity|constructor; [split; assumption|exact Hl]].
+    + inversion H; subst. split; [reflexivity|constructor; [split; assumption|apply no_logs_sound]].
+    + inversion H; subst. split; [reflexivity|constructor; [split; assumption|apply no_logs_sound]].
+Qed.
+
+Lemma tasks_pooled_general : forall ps fuel maxr held j idx r logs lk,
+  tasks_pooled fuel maxr held j idx ps = (r, logs, lk) -> lk = held /\ Forall2 (log_sound held j) ps logs.
+Proof.
+  induction ps as [|p rest IH]; intros fuel maxr held j idx r logs lk H.
+  - cbn in H. inversion H; subst. split; [reflexivity|constructor].
+  - cbn [tasks_pooled] in H. destruct (part_task fuel maxr held j p) as [[t log] lk1] eqn:Ep.
+    destruct (part_task_general _ _ _ _ _ _ _ _ Ep) as [-> [Hs Hn]].
+    destruct (tasks_pooled fuel maxr held j (idx + 1) rest) as [[r' logs'] lk2] eqn:Er.
+    destruct (IH _ _ _ _ _ _ _ _ Er) as [-> Hl]. inversion H; subst.
+    split; [reflexivity|constructor; [split; assumption|exact Hl]].
+Qed.
+
+Lemma tasks_of_general : forall mode ps fuel maxr held j idx r logs lk,
+  tasks_of mode fuel maxr held j idx ps = (r, logs, lk) -> lk = held /\ Forall2 (log_sound held j) ps logs.
+Proof. intros mode. unfold tasks_of. destruct (mode =? 0); [apply tasks_local_general|apply tasks_pooled_general]. Qed.
+
 (* ---------- Context.runJob *)
+Lemma held_of_spec : forall a, held_of a = negb ((act_class a =? 1) && tli_deferred).
+Proof.
+  intros. unfold held_of. rewrite lock_after_ok_false, lock_on_entry_true.
+  destruct ((act_class a =? 1) && tli_deferred); reflexivity.
+Qed.
 
 Lemma run_job_unlocked : forall mode maxr j,
   run_job mode maxr false j =
-    (let '(r, logs, _) := tasks_of mode (Z.to_nat maxr) maxr true j 0 (j_parts j) in
+    (let '(r, logs, _) := tasks_of mode (Z.to_nat maxr) maxr (held_of (j_action j)) j 0 (j_parts j) in
      (mkOut (finish j r) logs, false)).
 Proof.
-  intros. unfold run_job. rewrite rdd_init_refused_spec, job_refused_spec, lock_on_entry_true.
-  destruct (tasks_of mode (Z.to_nat maxr) maxr true j 0 (j_parts j)) as [[r logs] lk].
-  rewrite lock_after_ok_false, lock_after_error_false. destruct r; reflexivity.
+  intros. unfold run_job. rewrite rdd_init_refused_spec, job_refused_spec.
+  destruct (tasks_of mode (Z.to_nat maxr) maxr (held_of (j_action j)) j 0 (j_parts j)) as [[r logs] lk] eqn:Et.
+  destruct (tasks_of_general _ _ _ _ _ _ _ _ _ _ Et) as [-> _].
+  rewrite held_of_spec. destruct ((act_class (j_action j) =? 1) && tli_deferred); cbn [negb].
+  - reflexivity.
+  - rewrite lock_after_ok_false, lock_after_error_false. destruct r; reflexivity.
 Qed.
 
 Lemma run_job_locked : forall mode maxr j,
@@ -385,17 +511,24 @@ Proof. intros. unfold run_job. rewrite rdd_init_refused_spec. reflexivity. Qed.
 Lemma lock_released : forall mode maxr j, snd (run_job mode maxr false j) = false.
 Proof.
   intros. rewrite run_job_unlocked.
-  destruct (tasks_of mode (Z.to_nat maxr) maxr true j 0 (j_parts j)) as [[r logs] lk]. reflexivity.
+  destruct (tasks_of mode (Z.to_nat maxr) maxr (held_of (j_action j)) j 0 (j_parts j)) as [[r logs] lk]. reflexivity.
 Qed.
 
-Lemma plain_parts_spec : forall j, map (map (fn (j_post j))) (map (stage_in j) (j_parts j)) = plain_parts j.
+Lemma task_out_sound : forall j ps,
+  Forall (fun p => forall c, p_cache p = Some c -> c = stage_in j p) ps -> map (task_out j) ps = map (stage_in j) ps.
+Proof.
+  intros j ps H. apply map_ext_in. intros p Hp. rewrite Forall_forall in H. specialize (H p Hp).
+  unfold task_out, cached. destruct (persist_above j); [|reflexivity].
+  destruct (p_cache p) as [c|]; [apply H; reflexivity|reflexivity].
+Qed.
+
+Lemma plain_parts_spec : forall j, map (apply_ops (j_post j)) (map (stage_in j) (j_parts j)) = plain_parts j.
 Proof. intros. unfold plain_parts. rewrite map_map. reflexivity. Qed.
 
-Lemma tasks_of_ok : forall mode ps maxr j idx, 1 <= maxr -> all_ok maxr ps = true ->
-  exists logs, tasks_of mode (Z.to_nat maxr) maxr true j idx ps = (KOk (map (stage_in j) ps), logs, true)
-               /\ Forall2 (task_log_ok maxr j) ps logs.
+Lemma tasks_of_ok : forall mode ps held maxr j idx, 1 <= maxr -> all_ok held maxr j ps = true ->
+  exists logs, tasks_of mode (Z.to_nat maxr) maxr held j idx ps = (KOk (map (task_out j) ps), logs, held)
+               /\ Forall2 (task_log_ok held maxr j) ps logs.
 Proof. intros mode. unfold tasks_of. destruct (mode =? 0); [apply tasks_local_ok|apply tasks_pooled_ok]. Qed.
-
 
 Lemma Forall2_nth_mid : forall {A B} (R : A -> B -> Prop) pre x post l d,
   Forall2 R (pre ++ x :: post) l -> R x (nth (length pre) l d).
@@ -405,137 +538,165 @@ Proof.
   - inversion H; subst. cbn. eapply IH. eassumption.
 Qed.
 
-Lemma task_log_ok_exhausted : forall maxr j p log, 1 <= maxr -> exhausts maxr p = true ->
-  task_log_ok maxr j p log -> log = task_log (p_nest p) (stage_in j p) (p_plan p) (Z.to_nat maxr).
+Lemma task_log_ok_exhausted : forall held maxr j p log, 1 <= maxr -> exhausts held maxr j p = true ->
+  task_log_ok held maxr j p log -> log = task_log held (p_nest p) (stage_in j p) (p_plan p) (Z.to_nat maxr).
 Proof.
-  intros maxr j p log Hm Hp [n [E [Hn [Hle [Hfail Hlast]]]]].
-  rewrite exhausts_true in Hp. destruct Hlast as [Hnone|Heq].
-  - exfalso. apply (Hp (n - 1)%nat); [lia|exact Hnone].
+  intros held maxr j p log Hm Hp Hlog. destruct (exhausts_true_inv _ _ _ _ Hp) as [Ec Hp'].
+  unfold task_log_ok in Hlog. rewrite Ec in Hlog. destruct Hlog as [n [E [Hn [Hle [Hfail Hlast]]]]].
+  destruct Hlast as [Hnone|Heq].
+  - exfalso. apply (Hp' (n - 1)%nat); [lia|exact Hnone].
   - subst log. f_equal. lia.
 Qed.
 
-Lemma tasks_of_err : forall mode pre maxr j p post e, 1 <= maxr ->
-  all_ok maxr pre = true -> exhausts maxr p = true ->
-  att_exc (p_nest p) (p_plan p) (Z.to_nat maxr - 1) = Some e ->
-  exists logs, tasks_of mode (Z.to_nat maxr) maxr true j 0 (pre ++ p :: post)
-               = (KErr e (Z.of_nat (length pre)) maxr, logs, true)
-               /\ logs_ok mode maxr j pre p post logs.
+Lemma tasks_of_err : forall mode pre held maxr j p post e, 1 <= maxr ->
+  all_ok held maxr j pre = true -> exhausts held maxr j p = true ->
+  att_exc held (p_nest p) (p_plan p) (Z.to_nat maxr - 1) = Some e ->
+  exists logs, tasks_of mode (Z.to_nat maxr) maxr held j 0 (pre ++ p :: post)
+               = (KErr e (Z.of_nat (length pre)) maxr, logs, held)
+               /\ logs_ok mode held maxr j pre p post logs.
 Proof.
-  intros mode pre maxr j p post e Hm Hall Hp He. unfold tasks_of, logs_ok. destruct (mode =? 0).
-  - destruct (tasks_local_err pre maxr j 0 p post e Hm Hall Hp He) as [lpre [E H]].
+  intros mode pre held maxr j p post e Hm Hall Hp He. unfold tasks_of, logs_ok. destruct (mode =? 0).
+  - destruct (tasks_local_err pre held maxr j 0 p post e Hm Hall Hp He) as [lpre [E H]].
     eexists. split; [exact E|]. exists lpre. split; [reflexivity|exact H].
-  - destruct (tasks_pooled_err pre maxr j 0 p post e Hm Hall Hp He) as [logs [E H]].
+  - destruct (tasks_pooled_err pre held maxr j 0 p post e Hm Hall Hp He) as [logs [E H]].
     exists logs. split; [exact E|]. split; [exact H|].
-    apply (task_log_ok_exhausted maxr j p); try assumption.
+    apply (task_log_ok_exhausted held maxr j p); try assumption.
     eapply Forall2_nth_mid. exact H.
 Qed.
 
 (* ---------- job-level statements *)
-Lemma job_ok : forall mode maxr j, 1 <= maxr -> all_ok maxr (j_parts j) = true ->
+Lemma job_ok : forall mode maxr j, 1 <= maxr -> cache_sound j ->
+  all_ok (held_of (j_action j)) maxr j (j_parts j) = true ->
   exists logs, run_job mode maxr false j = (mkOut (JOk (plain_result j)) logs, false)
-               /\ Forall2 (task_log_ok maxr j) (j_parts j) logs.
+               /\ Forall2 (task_log_ok (held_of (j_action j)) maxr j) (j_parts j) logs.
 Proof.
-  intros mode maxr j Hm Hall. rewrite run_job_unlocked.
-  destruct (tasks_of_ok mode (j_parts j) maxr j 0 Hm Hall) as [logs [E H]].
-  exists logs. rewrite E. split; [|exact H]. cbn [finish]. rewrite plain_parts_spec. reflexivity.
+  intros mode maxr j Hm Hc Hall. rewrite run_job_unlocked.
+  destruct (tasks_of_ok mode (j_parts j) _ maxr j 0 Hm Hall) as [logs [E H]].
+  exists logs. rewrite E. split; [|exact H]. cbn [finish].
+  rewrite (task_out_sound j (j_parts j) Hc), plain_parts_spec. reflexivity.
 Qed.
 
 Lemma job_err : forall mode maxr j pre p post e, 1 <= maxr ->
-  j_parts j = pre ++ p :: post -> all_ok maxr pre = true -> exhausts maxr p = true ->
-  att_exc (p_nest p) (p_plan p) (Z.to_nat maxr - 1) = Some e ->
+  j_parts j = pre ++ p :: post -> all_ok (held_of (j_action j)) maxr j pre = true ->
+  exhausts (held_of (j_action j)) maxr j p = true ->
+  att_exc (held_of (j_action j)) (p_nest p) (p_plan p) (Z.to_nat maxr - 1) = Some e ->
   exists logs, run_job mode maxr false j = (mkOut (JErr e (Z.of_nat (length pre)) maxr) logs, false)
-               /\ logs_ok mode maxr j pre p post logs.
+               /\ logs_ok mode (held_of (j_action j)) maxr j pre p post logs.
 Proof.
   intros mode maxr j pre p post e Hm Hsplit Hall Hp He. rewrite run_job_unlocked, Hsplit.
-  destruct (tasks_of_err mode pre maxr j p post e Hm Hall Hp He) as [logs [E H]].
+  destruct (tasks_of_err mode pre _ maxr j p post e Hm Hall Hp He) as [logs [E H]].
   exists logs. rewrite E. split; [reflexivity|exact H].
 Qed.
 
-Lemma all_ok_split : forall maxr ps, all_ok maxr ps = false ->
-  exists pre p post, ps = pre ++ p :: post /\ all_ok maxr pre = true /\ exhausts maxr p = true.
+Lemma all_ok_split : forall held maxr j ps, all_ok held maxr j ps = false ->
+  exists pre p post, ps = pre ++ p :: post /\ all_ok held maxr j pre = true /\ exhausts held maxr j p = true.
 Proof.
   induction ps as [|q ps IH]; intros H; [discriminate|].
-  cbn [all_ok forallb] in H. destruct (exhausts maxr q) eqn:Hq.
+  cbn [all_ok forallb] in H. destruct (exhausts held maxr j q) eqn:Hq.
   - exists [], q, ps. split; [reflexivity|]. split; [reflexivity|exact Hq].
   - cbn [negb andb] in H. destruct (IH H) as [pre [p [post [E [Hpre Hp]]]]].
     exists (q :: pre), p, post. split; [rewrite E; reflexivity|]. split; [|exact Hp].
     cbn [all_ok forallb]. rewrite Hq. exact Hpre.
 Qed.
 
-Lemma job_result_iff : forall mode maxr j, 1 <= maxr ->
-  ((exists v, o_res (fst (run_job mode maxr false j)) = JOk v) <-> all_ok maxr (j_parts j) = true)
+Lemma job_result_iff : forall mode maxr j, 1 <= maxr -> cache_sound j ->
+  ((exists v, o_res (fst (run_job mode maxr false j)) = JOk v) <-> all_ok (held_of (j_action j)) maxr j (j_parts j) = true)
   /\ (forall v, o_res (fst (run_job mode maxr false j)) = JOk v -> v = plain_result j).
 Proof.
-  intros mode maxr j Hm. destruct (all_ok maxr (j_parts j)) eqn:Hall.
-  - destruct (job_ok mode maxr j Hm Hall) as [logs [E _]]. rewrite E. cbn [fst o_res]. split.
+  intros mode maxr j Hm Hc. destruct (all_ok (held_of (j_action j)) maxr j (j_parts j)) eqn:Hall.
+  - destruct (job_ok mode maxr j Hm Hc Hall) as [logs [E _]]. rewrite E. cbn [fst o_res]. split.
     + split; [reflexivity|]. intros _. eexists; reflexivity.
     + intros v Hv. inversion Hv. reflexivity.
-  - destruct (all_ok_split _ _ Hall) as [pre [p [post [Es [Hpre Hp]]]]].
-    destruct (exhausts_last maxr p Hm Hp) as [e He].
+  - destruct (all_ok_split _ _ _ _ Hall) as [pre [p [post [Es [Hpre Hp]]]]].
+    destruct (exhausts_last _ maxr j p Hm Hp) as [e He].
     destruct (job_err mode maxr j pre p post e Hm Es Hpre Hp He) as [logs [E _]]. rewrite E. cbn [fst o_res].
     split; [split; [intros [v Hv]; discriminate|discriminate]|intros v Hv; discriminate].
 Qed.
 
-(* nested operations: every one recorded in any log of a job is a refusal *)
-
-Lemma task_log_nested : forall ns xs pl n, Forall (fun r => Forall (fun o => o = 0) (a_nest r)) (task_log ns xs pl n).
+Lemma job_total : forall mode maxr j, 1 <= maxr -> cache_sound j ->
+  o_res (fst (run_job mode maxr false j)) = JOk (plain_result j)
+  \/ exists e i, o_res (fst (run_job mode maxr false j)) = JErr e i maxr.
 Proof.
-  intros. unfold task_log. apply Forall_forall. intros r Hr. apply in_map_iff in Hr.
-  destruct Hr as [i [<- _]]. apply rec_of_nest.
+  intros mode maxr j Hm Hc. destruct (all_ok (held_of (j_action j)) maxr j (j_parts j)) eqn:Hall.
+  - left. destruct (job_ok mode maxr j Hm Hc Hall) as [logs [E _]]. rewrite E. reflexivity.
+  - right. destruct (all_ok_split _ _ _ _ Hall) as [pre [p [post [Es [Hpre Hp]]]]].
+    destruct (exhausts_last _ maxr j p Hm Hp) as [e He].
+    destruct (job_err mode maxr j pre p post e Hm Es Hpre Hp He) as [logs [E _]]. rewrite E.
+    eexists; eexists; reflexivity.
 Qed.
 
-Lemma task_log_ok_nested : forall maxr j ps logs, Forall2 (task_log_ok maxr j) ps logs -> nested_all_refused logs.
+(* nested operations: what the logs of any job record for them is decided by the lock flag the tasks see *)
+Definition nested_all_accepted (logs : list (list arec)) : Prop :=
+  Forall (Forall (fun r => Forall (fun o => o = 1) (a_nest r))) logs.
+
+Lemma log_sound_refused : forall j ps logs, Forall2 (log_sound true j) ps logs -> nested_all_refused logs.
 Proof.
-  intros maxr j ps logs H. induction H as [|p log ps logs Hlog _ IH]; [constructor|].
-  constructor; [|exact IH]. destruct Hlog as [n [-> _]]. apply task_log_nested.
+  intros j ps logs H. induction H as [|p log ps logs [_ Hn] _ IH]; [constructor|].
+  constructor; [|exact IH]. apply Forall_forall. intros r Hr. rewrite (Hn r Hr). apply refusals_all_zero.
 Qed.
 
-Lemma no_logs_nested : forall ps, nested_all_refused (no_logs ps).
-Proof. induction ps; constructor; [constructor|assumption]. Qed.
+Lemma log_sound_accepted : forall j ps logs, Forall2 (log_sound false j) ps logs -> nested_all_accepted logs.
+Proof.
+  intros j ps logs H. induction H as [|p log ps logs [_ Hn] _ IH]; [constructor|].
+  constructor; [|exact IH]. apply Forall_forall. intros r Hr. rewrite (Hn r Hr).
+  cbn. apply Forall_forall. intros o Ho. apply in_map_iff in Ho. destruct Ho as [_ [<- _]]. reflexivity.
+Qed.
 
-Lemma nested_refused : forall mode maxr j, 1 <= maxr ->
+Lemma job_logs_sound : forall mode maxr j,
+  Forall2 (log_sound (held_of (j_action j)) j) (j_parts j) (o_logs (fst (run_job mode maxr false j))).
+Proof.
+  intros. rewrite run_job_unlocked.
+  destruct (tasks_of mode (Z.to_nat maxr) maxr (held_of (j_action j)) j 0 (j_parts j)) as [[r logs] lk] eqn:Et.
+  destruct (tasks_of_general _ _ _ _ _ _ _ _ _ _ Et) as [_ H]. exact H.
+Qed.
+
+Lemma nested_refused : forall mode maxr j, held_of (j_action j) = true ->
   nested_all_refused (o_logs (fst (run_job mode maxr false j))).
 Proof.
-  intros mode maxr j Hm. destruct (all_ok maxr (j_parts j)) eqn:Hall.
-  - destruct (job_ok mode maxr j Hm Hall) as [logs [E H]]. rewrite E. cbn [fst o_logs].
-    eapply task_log_ok_nested; eassumption.
-  - destruct (all_ok_split _ _ Hall) as [pre [p [post [Es [Hpre Hp]]]]].
-    destruct (exhausts_last maxr p Hm Hp) as [e He].
-    destruct (job_err mode maxr j pre p post e Hm Es Hpre Hp He) as [logs [E H]]. rewrite E. cbn [fst o_logs].
-    unfold logs_ok in H. destruct (mode =? 0).
-    + destruct H as [lpre [-> H]]. unfold nested_all_refused. apply Forall_app. split.
-      * eapply task_log_ok_nested; eassumption.
-      * constructor; [apply task_log_nested|apply no_logs_nested].
-    + destruct H as [H _]. eapply task_log_ok_nested; eassumption.
+  intros mode maxr j Hh. pose proof (job_logs_sound mode maxr j) as H. rewrite Hh in H.
+  eapply log_sound_refused. exact H.
 Qed.
 
-(* a propagating refusal is an ordinary task failure: the job ends with ContextIsLockedException
-   after max_retries attempts of that partition *)
-Lemma uncaught_exhausts : forall maxr p, uncaught (p_nest p) = true -> exhausts maxr p = true.
+Lemma nested_accepted_after_lock : forall mode maxr j, held_of (j_action j) = false ->
+  nested_all_accepted (o_logs (fst (run_job mode maxr false j))).
 Proof.
-  intros maxr p H. apply exhausts_true. intros i _. unfold att_exc. rewrite H. discriminate.
+  intros mode maxr j Hh. pose proof (job_logs_sound mode maxr j) as H. rewrite Hh in H.
+  eapply log_sound_accepted. exact H.
 Qed.
 
-Lemma uncaught_att_exc : forall ns pl i, uncaught ns = true -> att_exc ns pl i = Some E_LOCKED.
+Lemma held_of_class0 : forall a, act_class a = 0 -> held_of a = true.
+Proof. intros a H. rewrite held_of_spec, H. reflexivity. Qed.
+
+(* a propagating refusal is an ordinary task failure *)
+Lemma uncaught_exhausts : forall maxr j p, cached j p = None -> uncaught (p_nest p) = true -> exhausts true maxr j p = true.
+Proof.
+  intros maxr j p Hc H. rewrite (exhausts_uncached _ _ _ _ Hc). apply plan_exhausts_true.
+  intros i _. unfold att_exc. rewrite H. discriminate.
+Qed.
+
+Lemma uncaught_att_exc : forall ns pl i, uncaught ns = true -> att_exc true ns pl i = Some E_LOCKED.
 Proof. intros ns pl i H. unfold att_exc. rewrite H. reflexivity. Qed.
 
-(* ---------- the lazily evaluated actions *)
-Lemma run_task_ok_output : forall fuel maxr lk ns xs pl a0 ys log lk',
-  run_task fuel maxr lk ns xs pl a0 = (TOk ys, log, lk') -> ys = xs.
+Lemma nested_uncaught_surfaces : forall mode maxr j pre p post, 1 <= maxr -> held_of (j_action j) = true ->
+  j_parts j = pre ++ p :: post -> all_ok true maxr j pre = true -> cached j p = None -> uncaught (p_nest p) = true ->
+  exists logs, run_job mode maxr false j = (mkOut (JErr E_LOCKED (Z.of_nat (length pre)) maxr) logs, false).
 Proof.
-  induction fuel as [|fuel IH]; intros maxr lk ns xs pl a0 ys log lk' H; [discriminate|].
-  cbn [run_task] in H.
-  destruct (attempt lk ns xs (hd None pl) (attempt_next a0)) as [r lk1] eqn:Ea.
-  destruct (a_out r) as [e|] eqn:Eo.
-  - destruct (retry_stop (attempt_next a0) maxr && retry_reraise false); [discriminate|].
-    destruct (run_task fuel maxr lk1 ns xs (tl pl) (attempt_next a0)) as [[t l] lk2] eqn:Er.
-    inversion H; subst. eapply IH. exact Er.
-  - inversion H; subst. unfold attempt in Ea.
-    destruct (run_nested lk ns) as [[o raised] lk0]. destruct raised.
-    + inversion Ea; subst. discriminate.
-    + destruct (hd None pl); inversion Ea; subst; [discriminate|reflexivity].
+  intros mode maxr j pre p post Hm Hh Es Hpre Hc Hu.
+  pose proof (job_err mode maxr j pre p post E_LOCKED Hm Es) as H. rewrite Hh in H.
+  destruct (H Hpre (uncaught_exhausts maxr j p Hc Hu) (uncaught_att_exc _ _ _ Hu)) as [logs [E _]].
+  exists logs. exact E.
 Qed.
 
+Lemma run_job_spec : forall mode maxr j, 1 <= maxr -> cache_sound j -> job_spec mode maxr j (fst (run_job mode maxr false j)).
+Proof.
+  intros mode maxr j Hm Hc. unfold job_spec. cbv zeta. split; [|split].
+  - intros Hall. destruct (job_ok mode maxr j Hm Hc Hall) as [logs [E _]]. rewrite E. reflexivity.
+  - intros pre p post e Es Hpre Hp He.
+    destruct (job_err mode maxr j pre p post e Hm Es Hpre Hp He) as [logs [E H]]. rewrite E. split; [reflexivity|exact H].
+  - apply nested_refused.
+Qed.
+
+(* ---------- the lazily evaluated actions *)
 Lemma firstn_prefix_app : forall {A} n (l1 l2 : list A), (n <= length l1)%nat -> firstn n (l1 ++ l2) = firstn n l1.
 Proof.
   intros. rewrite firstn_app. replace (n - length l1)%nat with 0%nat by lia. cbn. apply app_nil_r.
@@ -551,23 +712,55 @@ Proof.
   rewrite firstn_firstn. rewrite firstn_length in H. f_equal. lia.
 Qed.
 
-(* the fault-free stream the result handler would see *)
-Definition lazy_stream (j : job) (ps : list part) : list Z := concat (map (stage_in j) ps).
+(* the stream of task outputs the result handler pulls from *)
+Definition lazy_stream (j : job) (ps : list part) : list Z := concat (map (task_out j) ps).
 
 Definition lazy_post (maxr : Z) (j : job) (need : nat) (ps : list part) (r : lres) : Prop :=
   match r with
   | LOk got => got = firstn need (lazy_stream j ps)
-  | LErr e i a => if j_eager j then a = maxr else a = 1
+  | LErr e i a => if lazy_eager j then a = maxr else a = 1
   | LFuel => False
   end.
 
 Lemma no_logs_short : forall ps, Forall (fun l : list arec => (length l <= 1)%nat) (no_logs ps).
 Proof. induction ps; constructor; [cbn; lia|assumption]. Qed.
 
+Lemma no_logs_nested : forall ps, nested_all_refused (no_logs ps).
+Proof. induction ps; constructor; [constructor|assumption]. Qed.
+
+Lemma persist_materialises : forall j, persist_above j = true -> lazy_eager j = true.
+Proof.
+  intros j H. unfold lazy_eager. apply orb_true_iff. right.
+  unfold persist_above in H. apply existsb_exists in H. destruct H as [c [Hin Hc]].
+  apply existsb_exists. exists c. split; [exact Hin|].
+  unfold op_persist in Hc. unfold op_materialises. apply orb_true_iff in Hc.
+  destruct Hc as [Hc|Hc]; rewrite Hc; rewrite ?orb_true_r; reflexivity.
+Qed.
+
+Lemma not_eager_uncached : forall j p, lazy_eager j = false -> task_out j p = stage_in j p.
+Proof.
+  intros j p H. unfold task_out, cached. destruct (persist_above j) eqn:Hp; [|reflexivity].
+  rewrite (persist_materialises j Hp) in H. discriminate.
+Qed.
+
+Lemma task_log_nested : forall ns xs pl n, Forall (fun r => Forall (fun o => o = 0) (a_nest r)) (task_log true ns xs pl n).
+Proof.
+  intros. unfold task_log. apply Forall_forall. intros r Hr. apply in_map_iff in Hr.
+  destruct Hr as [i [<- _]]. apply rec_of_nest.
+Qed.
+
+Lemma task_log_ok_nested_one : forall maxr j p log, task_log_ok true maxr j p log ->
+  Forall (fun r => Forall (fun o => o = 0) (a_nest r)) log.
+Proof.
+  intros maxr j p log H. unfold task_log_ok in H. destruct (cached j p).
+  - subst. constructor.
+  - destruct H as [n [-> _]]. apply task_log_nested.
+Qed.
+
 Lemma lazy_tasks_spec : forall maxr j, 1 <= maxr -> forall ps idx need,
   exists r logs, lazy_tasks (Z.to_nat maxr) maxr true j idx need ps = (r, logs, true)
     /\ nested_all_refused logs
-    /\ (j_eager j = false -> Forall (fun l => (length l <= 1)%nat) logs)
+    /\ (lazy_eager j = false -> Forall (fun l => (length l <= 1)%nat) logs)
     /\ lazy_post maxr j need ps r.
 Proof.
   intros maxr j Hm. induction ps as [|p rest IH]; intros idx need.
@@ -576,29 +769,29 @@ Proof.
   - destruct need as [|need'].
     { exists (LOk []), (no_logs (p :: rest)). split; [reflexivity|]. split; [apply no_logs_nested|].
       split; [intros _; apply no_logs_short|reflexivity]. }
-    cbn [lazy_tasks]. destruct (j_eager j) eqn:Eager.
-    + (* eager task function: ordinary retry while the partition is computed *)
-      destruct (exhausts maxr p) eqn:Hp.
-      * destruct (exhausts_last maxr p Hm Hp) as [e He].
-        destruct (task_err maxr j p e Hm Hp He) as [Erun Hlog]. rewrite Erun.
+    cbn [lazy_tasks]. destruct (lazy_eager j) eqn:Eager.
+    + (* the injected stage runs while the partition is computed: ordinary retry *)
+      destruct (exhausts true maxr j p) eqn:Hp.
+      * destruct (exhausts_last true maxr j p Hm Hp) as [e He].
+        destruct (task_err true maxr j p e Hm Hp He) as [Erun Hlog]. rewrite Erun.
         eexists; eexists. split; [reflexivity|]. split.
         { constructor; [apply task_log_nested|apply no_logs_nested]. }
         split; [discriminate|]. cbn. rewrite Eager. reflexivity.
-      * destruct (task_ok maxr j p Hm Hp) as [log [Erun Hlog]]. rewrite Erun.
-        destruct (S need' <=? length (stage_in j p))%nat eqn:Hle.
+      * destruct (task_ok true maxr j p Hm Hp) as [log [Erun Hlog]]. rewrite Erun.
+        destruct (S need' <=? length (task_out j p))%nat eqn:Hle.
         { apply Nat.leb_le in Hle. eexists; eexists. split; [reflexivity|]. split.
-          { constructor; [destruct Hlog as [n [-> _]]; apply task_log_nested|apply no_logs_nested]. }
+          { constructor; [eapply task_log_ok_nested_one; exact Hlog|apply no_logs_nested]. }
           split; [discriminate|]. cbn [lazy_post lazy_stream map concat].
           symmetry. apply firstn_prefix_app. exact Hle. }
         { apply Nat.leb_gt in Hle.
-          destruct (IH (idx + 1) (S need' - length (stage_in j p))%nat) as [r [logs [E [Hn [_ Hpost]]]]].
+          destruct (IH (idx + 1) (S need' - length (task_out j p))%nat) as [r [logs [E [Hn [_ Hpost]]]]].
           rewrite E. eexists; eexists. split; [reflexivity|]. split.
-          { constructor; [destruct Hlog as [n [-> _]]; apply task_log_nested|exact Hn]. }
+          { constructor; [eapply task_log_ok_nested_one; exact Hlog|exact Hn]. }
           split; [discriminate|].
           destruct r as [got|e i a|]; cbn [lcons lazy_post] in *; [|exact Hpost|exact Hpost].
           subst got. cbn [lazy_stream map concat]. symmetry. apply firstn_over_app. lia. }
     + (* generator task function: it only runs when the result handler pulls from it *)
-      rewrite run_nested_locked. destruct (uncaught (p_nest p)) eqn:Hu.
+      rewrite run_nested_spec. cbn [andb nest_outcomes]. destruct (uncaught (p_nest p)) eqn:Hu.
       * eexists; eexists. split; [reflexivity|]. split.
         { constructor; [|apply no_logs_nested]. constructor; [|constructor]. cbn. apply refusals_all_zero. }
         split; [intros _; constructor; [cbn; lia|apply no_logs_short]|]. cbn. rewrite Eager. reflexivity.
@@ -608,6 +801,7 @@ Proof.
             { constructor; [|apply no_logs_nested]. constructor; [|constructor]. cbn. apply refusals_all_zero. }
             split; [intros _; constructor; [cbn; lia|apply no_logs_short]|].
             cbn [lazy_post lazy_stream map concat]. rewrite seen_of_firstn by exact Hle.
+            rewrite (not_eager_uncached j p Eager).
             symmetry. apply firstn_prefix_app.
             destruct (seen_of_prefix (f_pos ft) (stage_in j p)) as [m Em]. rewrite Em, firstn_length in Hle. lia.
           - eexists; eexists. split; [reflexivity|]. split.
@@ -617,19 +811,55 @@ Proof.
           - apply Nat.leb_le in Hle. eexists; eexists. split; [reflexivity|]. split.
             { constructor; [|apply no_logs_nested]. constructor; [|constructor]. cbn. apply refusals_all_zero. }
             split; [intros _; constructor; [cbn; lia|apply no_logs_short]|].
-            cbn [lazy_post lazy_stream map concat]. symmetry. apply firstn_prefix_app. exact Hle.
+            cbn [lazy_post lazy_stream map concat]. rewrite (not_eager_uncached j p Eager).
+            symmetry. apply firstn_prefix_app. exact Hle.
           - apply Nat.leb_gt in Hle.
             destruct (IH (idx + 1) (S need' - length (stage_in j p))%nat) as [r [logs [E [Hn [Hs Hpost]]]]].
             rewrite E. eexists; eexists. split; [reflexivity|]. split.
             { constructor; [|exact Hn]. constructor; [|constructor]. cbn. apply refusals_all_zero. }
             split; [intros _; constructor; [cbn; lia|apply Hs; reflexivity]|].
             destruct r as [got|e i a|]; cbn [lcons lazy_post] in *; [|exact Hpost|exact Hpost].
-            subst got. cbn [lazy_stream map concat]. symmetry. apply firstn_over_app. lia. }
+            subst got. cbn [lazy_stream map concat]. rewrite (not_eager_uncached j p Eager).
+            symmetry. apply firstn_over_app. lia. }
+Qed.
+
+Lemma lazy_tasks_general : forall ps fuel maxr held j idx need r logs lk,
+  lazy_tasks fuel maxr held j idx need ps = (r, logs, lk) -> lk = held /\ Forall2 (log_sound held j) ps logs.
+Proof.
+  induction ps as [|p rest IH]; intros fuel maxr held j idx need r logs lk H.
+  - cbn in H. inversion H; subst. split; [reflexivity|constructor].
+  - destruct need as [|need'].
+    { cbn in H. inversion H; subst. split; [reflexivity|]. apply (no_logs_sound _ j (p :: rest)). }
+    cbn [lazy_tasks] in H. destruct (lazy_eager j).
+    + destruct (part_task fuel maxr held j p) as [[t log] lk1] eqn:Ep.
+      destruct (part_task_general _ _ _ _ _ _ _ _ Ep) as [-> [Hs Hn]].
+      destruct t.
+      * destruct (S need' <=? length ys)%nat.
+        { inversion H; subst. split; [reflexivity|constructor; [split; assumption|apply no_logs_sound]]. }
+        { destruct (lazy_tasks fuel maxr held j (idx + 1) (S need' - length ys) rest) as [[r' logs'] lk2] eqn:Er.
+          destruct (IH _ _ _ _ _ _ _ _ _ Er) as [-> Hl]. inversion H; subst.
+          split; [reflexivity|constructor; [split; assumption|exact Hl]]. }
+      * inversion H; subst. split; [reflexivity|constructor; [split; assumption|apply no_logs_sound]].
+      * inversion H; subst. split; [reflexivity|constructor; [split; assumption|apply no_logs_sound]].
+    + rewrite run_nested_spec in H.
+      assert (Hone : forall seen out, (out = None -> seen = stage_in j p) ->
+                log_sound held j p [mkRec 1 (nest_outcomes held (p_nest p)) seen out]).
+      { intros seen out Hso. split; intros r0 [<-|[]]; [exact Hso|reflexivity]. }
+      destruct (held && uncaught (p_nest p)).
+      * inversion H; subst. split; [reflexivity|]. constructor; [apply Hone; discriminate|apply no_logs_sound].
+      * destruct (hd None (p_plan p)) as [ft|].
+        { destruct (S need' <=? length (seen_of (f_pos ft) (stage_in j p)))%nat;
+            inversion H; subst; (split; [reflexivity|]); (constructor; [apply Hone; discriminate|apply no_logs_sound]). }
+        { destruct (S need' <=? length (stage_in j p))%nat.
+          - inversion H; subst. split; [reflexivity|]. constructor; [apply Hone; discriminate|apply no_logs_sound].
+          - destruct (lazy_tasks fuel maxr held j (idx + 1) (S need' - length (stage_in j p)) rest) as [[r' logs'] lk2] eqn:Er.
+            destruct (IH _ _ _ _ _ _ _ _ _ Er) as [-> Hl]. inversion H; subst.
+            split; [reflexivity|]. constructor; [apply Hone; reflexivity|exact Hl]. }
 Qed.
 
 (* what take / first / isEmpty return on the fault-free stream *)
 Definition lazy_plain_result (j : job) : jres :=
-  lazy_finish j (LOk (firstn (lazy_need (j_action j)) (lazy_stream j (j_parts j)))).
+  lazy_finish j (LOk (firstn (lazy_need (j_action j)) (concat (map (stage_in j) (j_parts j))))).
 
 Lemma run_lazy_unlocked : forall maxr j,
   run_lazy_job maxr false j =
@@ -648,20 +878,64 @@ Proof.
   reflexivity.
 Qed.
 
-Lemma lazy_actions : forall maxr j, 1 <= maxr ->
+Lemma lazy_actions : forall maxr j, 1 <= maxr -> cache_sound j ->
   let o := fst (run_lazy_job maxr false j) in
   (o_res o = lazy_plain_result j
-   \/ exists e i a, o_res o = JErr e i a /\ (if j_eager j then a = maxr else a = 1))
-  /\ (j_eager j = false -> Forall (fun l => (length l <= 1)%nat) (o_logs o))
+   \/ exists e i a, o_res o = JErr e i a /\ (if lazy_eager j then a = maxr else a = 1))
+  /\ (lazy_eager j = false -> Forall (fun l => (length l <= 1)%nat) (o_logs o))
   /\ nested_all_refused (o_logs o).
 Proof.
-  intros maxr j Hm. cbv zeta. rewrite run_lazy_unlocked.
+  intros maxr j Hm Hc. cbv zeta. rewrite run_lazy_unlocked.
   destruct (lazy_tasks_spec maxr j Hm (j_parts j) 0 (lazy_need (j_action j))) as [r [logs [E [Hn [Hs Hpost]]]]].
   rewrite E. cbn [fst o_res o_logs]. split; [|split; assumption].
   destruct r as [got|e i a|]; cbn [lazy_post] in Hpost.
-  - left. subst got. reflexivity.
+  - left. subst got. unfold lazy_plain_result, lazy_stream. rewrite (task_out_sound j (j_parts j) Hc). reflexivity.
   - right. exists e, i, a. split; [reflexivity|exact Hpost].
   - contradiction.
+Qed.
+
+(* ---------- what a job leaves in its dataset *)
+Definition part_sound (j : job) (p : part) : Prop := forall c, p_cache p = Some c -> c = stage_in j p.
+
+Lemma last_rec_in : forall log r, last_rec log = Some r -> In r log.
+Proof.
+  intros log r H. unfold last_rec in H. destruct (rev log) as [|x l] eqn:E; [discriminate|].
+  inversion H; subst. apply in_rev. rewrite E. left. reflexivity.
+Qed.
+
+Lemma after_parts_sound : forall held j ps logs fb,
+  Forall (part_sound j) ps -> Forall2 (log_sound held j) ps logs ->
+  Forall (part_sound j) (after_parts j fb ps logs).
+Proof.
+  intros held j ps logs fb Hps Hl. revert fb. induction Hl as [|p log ps logs [Hs _] _ IH]; intros fb; [constructor|].
+  inversion Hps as [|? ? Hp Hps']; subst. cbn [after_parts]. constructor; [|apply IH; exact Hps'].
+  unfold part_sound. cbn [p_cache]. unfold stage_in at 1. cbn [p_data]. fold (stage_in j p).
+  intros c Hc. unfold task_success in Hc. destruct (last_rec log) as [r|] eqn:El.
+  - destruct (a_out r) eqn:Eo.
+    + apply Hp. exact Hc.
+    + destruct (persist_above j && negb fb).
+      * inversion Hc; subst. apply Hs; [apply last_rec_in; exact El|exact Eo].
+      * apply Hp. exact Hc.
+  - apply Hp. exact Hc.
+Qed.
+
+Lemma any_logs_sound : forall mode maxr j, exists held,
+  Forall2 (log_sound held j) (j_parts j) (o_logs (fst (run_any mode maxr false j))).
+Proof.
+  intros. unfold run_any. destruct (is_lazy (j_action j)).
+  - exists true. rewrite run_lazy_unlocked.
+    destruct (lazy_tasks (Z.to_nat maxr) maxr true j 0 (lazy_need (j_action j)) (j_parts j)) as [[r logs] lk] eqn:El.
+    destruct (lazy_tasks_general _ _ _ _ _ _ _ _ _ _ El) as [_ H]. exact H.
+  - exists (held_of (j_action j)). apply job_logs_sound.
+Qed.
+
+Lemma after_job_sound : forall mode maxr j, cache_sound j ->
+  cache_sound (after_job j (fst (run_any mode maxr false j))).
+Proof.
+  intros mode maxr j Hc. destruct (any_logs_sound mode maxr j) as [held Hl].
+  unfold cache_sound, after_job. cbn [j_parts].
+  pose proof (after_parts_sound held j (j_parts j) _ false Hc Hl) as H.
+  eapply Forall_impl; [|exact H]. intros p Hp. exact Hp.
 Qed.
 
 (* ---------- sequences of jobs on one context *)
@@ -675,44 +949,84 @@ Proof.
   unfold run_lazy_job. rewrite rdd_init_refused_spec. reflexivity.
 Qed.
 
-Lemma usable_after : forall mode maxr js,
-  run_jobs mode maxr false js = (map (fun j => fst (run_any mode maxr false j)) js, false).
+(* the datasets of the requests start with an empty cache *)
+Definition fresh_ok (rq : jobreq) : Prop := Forall (fun p => p_cache p = None) (j_parts (r_job rq)).
+Definition prev_sound (prev : option (Z * job)) : Prop :=
+  match prev with Some (_, pj) => cache_sound pj | None => True end.
+
+Lemma resolve_sound : forall prev idx rq, prev_sound prev -> fresh_ok rq -> cache_sound (snd (resolve prev idx rq)).
 Proof.
-  induction js as [|j js IH]; [reflexivity|].
-  cbn [run_jobs map]. pose proof (any_lock_released mode maxr j) as Hl.
-  destruct (run_any mode maxr false j) as [o lk]. cbn [snd] in Hl. subst lk.
-  rewrite IH. reflexivity.
+  intros prev idx rq Hp Hf. unfold resolve.
+  assert (Hfresh : cache_sound (r_job rq)).
+  { unfold cache_sound. eapply Forall_impl; [|exact Hf]. intros p Hn c Hc. rewrite Hn in Hc. discriminate. }
+  destruct (r_reuse rq); [|exact Hfresh]. destruct prev as [[origin pj]|]; [|exact Hfresh].
+  cbn [snd]. exact Hp.
 Qed.
 
-(* the outcome of a job does not depend on the jobs that ran before it on the same context *)
-Lemma usable_after_history : forall mode maxr history j d,
-  nth (length history) (fst (run_jobs mode maxr false (history ++ [j]))) d = fst (run_any mode maxr false j).
+Definition triple_ok (mode maxr : Z) (t : Z * job * outcome) : Prop :=
+  let '(_, j, o) := t in o = fst (run_any mode maxr false j) /\ cache_sound j.
+
+Lemma sequence_idle : forall mode maxr rqs prev idx, Forall fresh_ok rqs -> prev_sound prev ->
+  snd (run_jobs mode maxr false prev idx rqs) = false /\
+  Forall (triple_ok mode maxr) (fst (run_jobs mode maxr false prev idx rqs)).
 Proof.
-  intros. rewrite usable_after. cbn [fst]. rewrite map_app. cbn [map].
-  rewrite <- (map_length (fun j0 => fst (run_any mode maxr false j0)) history).
-  apply nth_middle.
+  induction rqs as [|rq rest IH]; intros prev idx Hf Hp.
+  - cbn. split; [reflexivity|constructor].
+  - inversion Hf as [|? ? Hrq Hrest]; subst. cbn [run_jobs].
+    pose proof (resolve_sound prev idx rq Hp Hrq) as Hs.
+    destruct (resolve prev idx rq) as [origin j]. cbn [snd] in Hs.
+    pose proof (any_lock_released mode maxr j) as Hl.
+    pose proof (after_job_sound mode maxr j Hs) as Ha.
+    destruct (run_any mode maxr false j) as [o lk] eqn:Er. cbn [snd fst] in *. subst lk.
+    destruct (IH (Some (origin, after_job j o)) (idx + 1) Hrest Ha) as [H1 H2].
+    destruct (run_jobs mode maxr false (Some (origin, after_job j o)) (idx + 1) rest) as [os lk2].
+    cbn [fst snd] in *. split; [exact H1|]. constructor; [|exact H2]. split; [rewrite Er; reflexivity|exact Hs].
 Qed.
 
-Lemma followup_correct : forall mode maxr history j, 1 <= maxr ->
-  is_lazy (j_action j) = false -> all_ok maxr (j_parts j) = true ->
-  o_res (nth (length history) (fst (run_jobs mode maxr false (history ++ [j]))) (mkOut JFuel [])) = JOk (plain_result j).
+(* the whole property for every whole-partition job of every sequence *)
+Lemma sequence_spec : forall mode maxr rqs, 1 <= maxr -> Forall fresh_ok rqs ->
+  snd (run_jobs mode maxr false None 0 rqs) = false /\
+  Forall (fun '(_, j, o) => is_lazy (j_action j) = false -> job_spec mode maxr j o)
+         (fst (run_jobs mode maxr false None 0 rqs)).
 Proof.
-  intros mode maxr history j Hm Hstrict Hall. rewrite usable_after_history.
-  unfold run_any. rewrite Hstrict.
-  destruct (job_ok mode maxr j Hm Hall) as [logs [E _]]. rewrite E. reflexivity.
+  intros mode maxr rqs Hm Hf. destruct (sequence_idle mode maxr rqs None 0 Hf I) as [H1 H2].
+  split; [exact H1|]. eapply Forall_impl; [|exact H2].
+  intros [[origin j] o] [Ho Hc] Hstrict. subst o. unfold run_any. rewrite Hstrict.
+  apply run_job_spec; assumption.
 Qed.
 
-(* with max_retries >= 1 the fuel handed to the tasks is never used up and the driver is never refused *)
-Lemma job_total : forall mode maxr j, 1 <= maxr ->
-  o_res (fst (run_job mode maxr false j)) = JOk (plain_result j)
-  \/ exists e i, o_res (fst (run_job mode maxr false j)) = JErr e i maxr.
+(* a fresh follow-up job whose partitions all succeed within the budget returns the correct result *)
+Lemma followup_correct : forall mode maxr history j, 1 <= maxr -> Forall fresh_ok history -> fresh_ok (mkReq j false) ->
+  is_lazy (j_action j) = false -> all_ok (held_of (j_action j)) maxr j (j_parts j) = true ->
+  exists origin j' o, last (fst (run_jobs mode maxr false None 0 (history ++ [mkReq j false]))) (0, j, mkOut JFuel []) = (origin, j', o)
+                      /\ j' = j /\ o_res o = JOk (plain_result j).
 Proof.
-  intros mode maxr j Hm. destruct (all_ok maxr (j_parts j)) eqn:Hall.
-  - left. destruct (job_ok mode maxr j Hm Hall) as [logs [E _]]. rewrite E. reflexivity.
-  - right. destruct (all_ok_split _ _ Hall) as [pre [p [post [Es [Hpre Hp]]]]].
-    destruct (exhausts_last maxr p Hm Hp) as [e He].
-    destruct (job_err mode maxr j pre p post e Hm Es Hpre Hp He) as [logs [E _]]. rewrite E.
-    eexists; eexists; reflexivity.
+  intros mode maxr history j Hm Hh Hj Hstrict Hall.
+  assert (Hgen : forall prev idx, prev_sound prev ->
+            exists origin o, last (fst (run_jobs mode maxr false prev idx (history ++ [mkReq j false]))) (0, j, mkOut JFuel []) = (origin, j, o)
+                             /\ o_res o = JOk (plain_result j)).
+  { induction history as [|rq rest IH]; intros prev idx Hp.
+    - cbn [app run_jobs resolve r_reuse r_job].
+      assert (Hc : cache_sound j).
+      { unfold cache_sound. eapply Forall_impl; [|exact Hj]. intros p Hn c Hc. cbn in Hn. rewrite Hn in Hc. discriminate. }
+      destruct (run_any mode maxr false j) as [o lk] eqn:Er. cbn [run_jobs fst last].
+      exists idx, o. split; [reflexivity|].
+      unfold run_any in Er. rewrite Hstrict in Er.
+      destruct (job_ok mode maxr j Hm Hc Hall) as [logs [E _]]. rewrite E in Er. inversion Er; subst. reflexivity.
+    - inversion Hh as [|? ? Hrq Hrest]; subst. cbn [app run_jobs].
+      pose proof (resolve_sound prev idx rq Hp Hrq) as Hs.
+      destruct (resolve prev idx rq) as [origin jr]. cbn [snd] in Hs.
+      pose proof (any_lock_released mode maxr jr) as Hl.
+      pose proof (after_job_sound mode maxr jr Hs) as Ha.
+      destruct (run_any mode maxr false jr) as [o lk]. cbn [snd fst] in *. subst lk.
+      destruct (IH Hrest (Some (origin, after_job jr o)) (idx + 1) Ha) as [og [o' [El Eo]]].
+      destruct (run_jobs mode maxr false (Some (origin, after_job jr o)) (idx + 1) (rest ++ [mkReq j false])) as [os lk2] eqn:Er.
+      cbn [fst] in *. exists og, o'. split; [|exact Eo].
+      destruct os as [|t os']; [|exact El].
+      (* the remaining sequence is not empty *)
+      exfalso. destruct rest; cbn [app run_jobs] in Er;
+        repeat match type of Er with context [let '(_, _) := ?x in _] => destruct x end; discriminate. }
+  destruct (Hgen None 0 I) as [og [o [El Eo]]]. exists og, j, o. split; [exact El|split; [reflexivity|exact Eo]].
 Qed.
 
 (* ---------- packaged statements used by Properties/C04.v *)
@@ -722,46 +1036,26 @@ Proof. intros; split; [apply job_refused_spec|apply rdd_init_refused_spec]. Qed.
 Lemma lock_protocol_spec : lock_on_entry = true /\ lock_after_ok = false /\ lock_after_error = false.
 Proof. repeat split. Qed.
 
-Lemma attempt_from_scratch : forall ns xs pl i,
-  a_no (rec_of ns xs pl i) = Z.of_nat i + 1 /\
-  a_out (rec_of ns xs pl i) = att_exc ns pl i /\
-  (exists n, a_seen (rec_of ns xs pl i) = firstn n xs) /\
-  (att_exc ns pl i = None -> a_seen (rec_of ns xs pl i) = xs) /\
-  a_nest (rec_of ns xs pl i) = refusals ns /\ Forall (fun o => o = 0) (refusals ns).
+Lemma attempt_from_scratch : forall held ns xs pl i,
+  a_no (rec_of held ns xs pl i) = Z.of_nat i + 1 /\
+  a_out (rec_of held ns xs pl i) = att_exc held ns pl i /\
+  (exists n, a_seen (rec_of held ns xs pl i) = firstn n xs) /\
+  (att_exc held ns pl i = None -> a_seen (rec_of held ns xs pl i) = xs) /\
+  a_nest (rec_of held ns xs pl i) = nest_outcomes held ns /\ Forall (fun o => o = 0) (nest_outcomes true ns).
 Proof.
   intros. split; [apply rec_of_no|]. split; [apply rec_of_out|]. split; [apply rec_of_from_scratch|].
   split; [apply rec_of_success_all|]. split; [rewrite rec_of_spec; reflexivity|apply refusals_all_zero].
 Qed.
 
-Lemma nested_uncaught_surfaces : forall mode maxr j pre p post, 1 <= maxr ->
-  j_parts j = pre ++ p :: post -> all_ok maxr pre = true -> uncaught (p_nest p) = true ->
-  exists logs, run_job mode maxr false j = (mkOut (JErr E_LOCKED (Z.of_nat (length pre)) maxr) logs, false).
+(* the witness of the open finding: a task of a toLocalIterator job creates a dataset and is not refused
+   (as long as toLocalIterator defers its tasks: the premise keeps the statement checkable after a repair) *)
+Lemma nested_refused_refuted : tli_deferred = true ->
+  ~ (forall mode maxr j, nested_all_refused (o_logs (fst (run_job mode maxr false j)))).
 Proof.
-  intros mode maxr j pre p post Hm Es Hpre Hu.
-  destruct (job_err mode maxr j pre p post E_LOCKED Hm Es Hpre (uncaught_exhausts maxr p Hu)
-                    (uncaught_att_exc _ _ _ Hu)) as [logs [E _]].
-  exists logs. exact E.
-Qed.
-
-(* ---------- the whole property for every job of every sequence *)
-Lemma run_job_spec : forall mode maxr j, 1 <= maxr -> job_spec mode maxr j (fst (run_job mode maxr false j)).
-Proof.
-  intros mode maxr j Hm. split; [|split].
-  - intros Hall. destruct (job_ok mode maxr j Hm Hall) as [logs [E _]]. rewrite E. reflexivity.
-  - intros pre p post e Es Hpre Hp He.
-    destruct (job_err mode maxr j pre p post e Hm Es Hpre Hp He) as [logs [E H]]. rewrite E. split; [reflexivity|exact H].
-  - apply nested_refused. exact Hm.
-Qed.
-
-Lemma sequence_spec : forall mode maxr js, 1 <= maxr ->
-  let outs := fst (run_jobs mode maxr false js) in
-  length outs = length js /\ snd (run_jobs mode maxr false js) = false /\
-  forall k j, nth_error js k = Some j -> is_lazy (j_action j) = false ->
-    exists o, nth_error outs k = Some o /\ job_spec mode maxr j o.
-Proof.
-  intros mode maxr js Hm. cbv zeta. rewrite usable_after. cbn [fst snd].
-  split; [apply map_length|]. split; [reflexivity|].
-  intros k j Hk Hstrict. exists (fst (run_any mode maxr false j)). split.
-  - rewrite nth_error_map, Hk. reflexivity.
-  - unfold run_any. rewrite Hstrict. apply run_job_spec. exact Hm.
+  intros Hd H.
+  specialize (H 0 1 (mkJob 39 false [] [] [mkPart [5] [] [mkNop NCreate true] None 0])).
+  vm_compute in Hd. vm_compute in H.
+  first [ discriminate Hd
+        | inversion H as [|? ? H1 _]; subst; inversion H1 as [|? ? H2 _]; subst;
+          inversion H2 as [|? ? H3 _]; subst; discriminate ].
 Qed.
